@@ -47,17 +47,18 @@ JudgeSort(C) ==
   IF C.ok # 1 THEN "sort-failed"
   ELSE IF C.res # SortUnique(C.list) THEN "sort-result" ELSE ""
 
-\* C18: matrix of Python-level == and hash over objects that denote terms.
-\* objs[i] = [term, ground]; eq[i][j] in {0,1}; hash[i] integer class id (equal ids <=> equal hashes)
+\* C18: matrix of Python-level == and hash over objects built with the public constructors / the parser.
+\* eq[i][j] in {0,1}; hash[i] = class id (equal ids <=> equal hashes); unif[i][j] = 1 iff ProbLog's own
+\* unify_value accepts the pair (0 = UnifyError, 2 = other exception); ground[i] in {0,1}
 JudgeEq(C) ==
-  LET n == Len(C.objs)
+  LET n == Len(C.eq)
       E(i, j) == C.eq[i][j] = 1
   IN  IF \E i \in 1..n : ~E(i, i) THEN "eq-not-reflexive"
       ELSE IF \E i, j \in 1..n : E(i, j) # E(j, i) THEN "eq-not-symmetric"
       ELSE IF \E i, j, k \in 1..n : E(i, j) /\ E(j, k) /\ ~E(i, k) THEN "eq-not-transitive"
       ELSE IF \E i, j \in 1..n : E(i, j) /\ C.hash[i] # C.hash[j] THEN "eq-but-different-hash"
-      ELSE IF \E i, j \in 1..n : C.objs[i].ground = 1 /\ C.objs[j].ground = 1
-                                  /\ E(i, j) # Identical(C.objs[i].term, C.objs[j].term) THEN "eq-differs-from-identity"
+      ELSE IF \E i, j \in 1..n : C.ground[i] = 1 /\ C.ground[j] = 1 /\ C.unif[i][j] # 2
+                                  /\ E(i, j) # (C.unif[i][j] = 1) THEN "eq-differs-from-unification"
       ELSE ""
 
 JudgeCase(C) ==
